@@ -218,6 +218,12 @@ def make_pipefunc(fd: dict, tag: str = ""):
                  "resources_scope": "map"}
     if fd.get("picker") and len(outs) > 1 and not fd.get("retnone"):
         reskw["output_picker"] = pick_by_name
+    if fd.get("hook"):
+        def hook(func, result, kwargs, _fid=fid, _fd=fd):
+            # post_execution_hook(func, result, kwargs): logged as an event of its own (kwargs arrive under the ORIGINAL names)
+            _log({"e": "hook", "f": _fd["name"], "fid": _fid, "result": to_json(result),
+                  "kwargs": {p: to_json(kwargs[orig_name(_fd, p)]) for p in _fd["params"]}})
+        reskw["post_execution_hook"] = hook
     pf = PipeFunc(fn, orig_outs[0] if len(outs) == 1 else tuple(orig_outs), renames=renames or None, **reskw,
                   defaults=defaults or None, bound=bound or None, mapspec=fd.get("mapspec"),
                   internal_shape=tuple(ishape) if ishape else None, cache=bool(fd.get("cache", False)))
